@@ -50,9 +50,13 @@ func CheckPackageOnly(
 		reportedTypes := make(map[string]bool)
 		context.reportedTypes = &reportedTypes
 
+		// identifiers that are the selected name of a selector expression are judged with it
+		selected := make(map[*ast.Ident]bool)
+
 		ast.Inspect(file, func(n ast.Node) bool {
 			switch node := n.(type) {
 			case *ast.SelectorExpr:
+				selected[node.Sel] = true
 				// Check selector expressions like "pkg.Type" or "pkg.Function"
 				if v := findSelectorExprViolation(&context, node); v != nil {
 					violations = append(violations, *v)
@@ -62,6 +66,11 @@ func CheckPackageOnly(
 				// Check identifier usage for local package objects
 				if v := findIdentViolation(&context, node); v != nil {
 					violations = append(violations, *v)
+				} else if !selected[node] {
+					// a bare identifier can also name an object of another package: import . "pkg"
+					if v := findDotImportedViolation(&context, node); v != nil {
+						violations = append(violations, *v)
+					}
 				}
 			}
 			return true
@@ -142,6 +151,37 @@ func resolveAlias(typeName *types.TypeName) *types.TypeName {
 		}
 	}
 	return typeName
+}
+
+// findDotImportedViolation checks a bare identifier that refers to a type or
+// function of another package (brought into the file scope by a dot import)
+func findDotImportedViolation(
+	ctx *packageOnlyContext,
+	ident *ast.Ident,
+) *PackageOnlyViolation {
+	obj := ctx.pass.TypesInfo.Uses[ident]
+	if obj == nil || obj.Pkg() == nil || obj.Pkg().Path() == ctx.currentPkgPath {
+		return nil
+	}
+	if obj.Parent() != obj.Pkg().Scope() {
+		return nil // not a package-level object (field, method, parameter of generic code, ...)
+	}
+
+	if typeName, ok := obj.(*types.TypeName); ok {
+		obj = resolveAlias(typeName)
+		if obj.Pkg() == nil || obj.Pkg().Path() == ctx.currentPkgPath {
+			return nil
+		}
+	}
+
+	switch obj := obj.(type) {
+	case *types.TypeName:
+		return findTypeViolation(ctx, obj.Pkg().Path(), obj.Name(), ident.Pos())
+	case *types.Func:
+		return findFunctionViolation(ctx, obj.Pkg().Path(), obj.Name(), ident.Pos())
+	}
+
+	return nil
 }
 
 // findIdentViolation checks identifier usage for local package objects
